@@ -204,7 +204,9 @@ def check_cost(c, rec):
 def loop_cases(draw, lengths):
     return {"L": draw(st.sampled_from(lengths)),
             "mode": draw(st.sampled_from(["no_grad", "no_requires_grad", "no_grad_on_param", "no_grad_after_backward"])),
-            "body": draw(st.sampled_from(["affine", "tanh", "matmul", "index", "sum_broadcast"])), "dtype": draw(st.sampled_from(["float32", "float64"]))}
+            "body": draw(st.sampled_from(["affine", "tanh", "matmul", "index", "sum_broadcast"])), "dtype": draw(st.sampled_from(["float32", "float64"])),
+            # the loop runs while retain_grads() is in force as well (it concerns recorded tensors only)
+            "retain": draw(st.sampled_from([False, False, True]))}
 
 
 def check_loop(c, rec):
@@ -235,13 +237,17 @@ def check_loop(c, rec):
             y = body(y)
             refs.append(weakref.ref(y))
 
-    if c["mode"].startswith("no_grad"):
-        with sg.no_grad():
-            if recorded is not None:
-                recorded.backward()          # differentiating inside the block must not switch tracking back on
+    import contextlib
+    with (sg.retain_grads() if c.get("retain") else contextlib.nullcontext()):
+        if c.get("retain"):
+            rec.tag("inside_retain_grads")
+        if c["mode"].startswith("no_grad"):
+            with sg.no_grad():
+                if recorded is not None:
+                    recorded.backward()          # differentiating inside the block must not switch tracking back on
+                loop()
+        else:
             loop()
-    else:
-        loop()
     if y.requires_grad:
         raise Violation("untracked_requires_grad", f"result of an untracked loop requires grad; {c}")
     gc.collect()
